@@ -369,7 +369,7 @@ class symeig_torchfcn(torch.autograd.Function):
                                **ctx.bck_config)  # (*BAM, na, neig)
 
             # orthogonalize gevecs w.r.t. evecs
-            gevecsA = _ortho(gevecs, evecs, D=None, M=M, mright=True)
+            gevecsA = _ortho(gevecs, evecs, D=idx_degen, M=M, mright=True)
 
         # accummulate the gradient contributions
         gaccumA = gevalsA + gevecsA
@@ -390,8 +390,13 @@ class symeig_torchfcn(torch.autograd.Function):
             gevecsM = -gevecsA * evals.unsqueeze(-2)
 
             # the contribution from the parallel elements
-            gevecsM_par = (-0.5 * torch.einsum("...ae,...ae->...e", grad_evecs, evecs.conj())
-                           ).unsqueeze(-2) * evecs  # (*BAM, na, neig)
+            if idx_degen is None:
+                gevecsM_par = (-0.5 * torch.einsum("...ae,...ae->...e", grad_evecs, evecs.conj())
+                               ).unsqueeze(-2) * evecs  # (*BAM, na, neig)
+            else:
+                # the normalisation couples all the vectors of a degenerate subspace
+                xtg = torch.matmul(evecs.transpose(-2, -1).conj(), grad_evecs)
+                gevecsM_par = -0.5 * torch.matmul(evecs, idx_degen * xtg)  # (*BAM, na, neig)
 
             gaccumM = gevalsM + gevecsM + gevecsM_par
             grad_mparams = torch.autograd.grad(
